@@ -138,6 +138,20 @@ class Cls:
         return {"same": "S", "changed": "C", "fresh": "F"}[self.kind]
 
 
+def _field_of_self_clone(fd, p, self_param):
+    """place `T.f..` where T is (only) a clone / copy of the whole of self and is never written: the field path, else None
+    (struct update syntax `Schedule { a, b, ..self.clone() }` moves the remaining fields out of such a temporary)"""
+    if self_param is None or p.is_local or p.first_deref():
+        return None
+    ds = _single_real_def(fd, p.local)
+    if len(ds) != 1:
+        return None
+    if origin_of_def(fd, ds[0], self_param) != ():
+        return None
+    fp = p.field_path()
+    return fp if fp else None
+
+
 def classify_local(fd, l, self_param, depth=0):
     if self_param is None:
         return Cls("fresh", local=l)
@@ -163,6 +177,10 @@ def classify_local(fd, l, self_param, depth=0):
             o = ins.ops[0]
             if o.place is not None and o.place.is_local:
                 return classify_local(fd, o.place.local, self_param, depth + 1)
+            if o.place is not None:
+                fp = _field_of_self_clone(fd, o.place, self_param)
+                if fp:
+                    return Cls("same", fp, local=l)
     return Cls("fresh", local=l, writes=ds)
 
 
@@ -174,6 +192,9 @@ def classify_operand(fd, op, self_param):
         return classify_local(fd, p.local, self_param)
     if self_param is not None and p.local in self_aliases(fd, self_param) and p.first_deref():
         return Cls("same", p.field_path())
+    fp = _field_of_self_clone(fd, p, self_param)
+    if fp:
+        return Cls("same", fp)
     return Cls("fresh")
 
 
